@@ -14,7 +14,7 @@ RULE = ("Hypothesis-generated histories (<=12 ops) over two sources and one targ
         "after every op, overridden names keep their plain value for good, and a census of the internal watchers the target "
         "keeps on each source (none when no live link depends on that source). Non-trivial = >=2 linked parameters and a "
         "relink/override of one of them followed by updates of the old and new sources; or a link made after construction; or a "
-        "nested reference; distinct = case hash.")
+        "nested reference; distinct = case hash. Round-4 additions: a per_instance=False target parameter, an on_init method of the target that overrides a linked parameter or moves a source during construction, sources starting from values for which a constructor reference skips, overrides made by a callback while param.trigger runs, update() given a list / an iterator of pairs, and a side scenario with two targets linked to one source where a watcher of the first overrides / relinks a parameter of the second while the source announces a batch.")
 ASSUMPTIONS = [
     "after a source value that is invalid for the target a name is not judged until one of its sources is updated again with a "
     "valid value; leaving an update() context while the restored reference resolves to an invalid value ends the case",
